@@ -17,6 +17,16 @@ from vf.specfun_k import HP, RG, Custom, dyadic, near_int, near_half_int, near_n
 from vf.catalog import R, C, I, raw_from_float, canon, raw_rand
 
 PROP = 'C23'
+
+
+def KEYMAP(key):
+    """Known-finding granularity is (function, failure kind), not the several hundred argument cells: seed sweeps of the unchanged
+    tree kept producing genuine failures in new cells of the same functions, i.e. per-function weaknesses.  The cell stays in the
+    witness as `fine_key`; a failure worse than the recorded ceiling of its (function, kind) is still reported as new."""
+    parts = key.split('/')
+    last = parts[-1]
+    kind = last if (last.startswith('raises-') or last == 'non-finite-result' or last.startswith('wrong-')) else 'accuracy'
+    return 'C23/%s/%s' % (parts[1], kind)
 LEVEL = 'exploration'
 NEEDS_REF = True
 RULE = ('stratified cells (function x argument regime fixed a priori, label = mechanism key) x precision list; concrete '
